@@ -22,6 +22,7 @@ type Event struct {
 	Func  string
 	Pos   string
 	Child int // for "go": thread id started
+	Seq   int
 }
 
 type ThreadTrace struct {
@@ -35,6 +36,8 @@ type tracer struct {
 	cur     int
 	pending []pendingGo
 	objName map[int]string
+	objs    map[int]*Object
+	it      *Interp
 }
 
 type pendingGo struct {
@@ -45,7 +48,7 @@ type pendingGo struct {
 }
 
 func newTracer() *tracer {
-	return &tracer{threads: [][]Event{nil}, names: []string{"main"}, objName: map[int]string{}}
+	return &tracer{threads: [][]Event{nil}, names: []string{"main"}, objName: map[int]string{}, objs: map[int]*Object{}}
 }
 
 func (t *tracer) add(e Event) {
@@ -53,15 +56,47 @@ func (t *tracer) add(e Event) {
 }
 
 func (t *tracer) access(o *Object, idx int, write bool) {
-	// only heap objects that can be shared matter; stack allocs are filtered later (objects touched by one thread only)
+	// every object access is recorded; objects touched by one thread only are filtered out by the decider
 	k := "R"
 	if write {
 		k = "W"
 	}
-	t.add(Event{Kind: k, Obj: o.ID, Slot: idx, Name: o.Site})
+	cur := t.threads[t.cur]
+	if n := len(cur); n > 0 {
+		last := cur[n-1]
+		if last.Kind == k && last.Obj == o.ID && last.Slot == idx {
+			return
+		}
+	}
+	e := Event{Kind: k, Obj: o.ID, Slot: idx}
+	if t.it != nil {
+		if n := len(t.it.curFn); n > 0 {
+			// innermost repository function
+			for i := n - 1; i >= 0; i-- {
+				fn := t.it.curFn[i]
+				if pk := t.it.pkgOf(fn); len(pk) >= 24 && pk[:24] == "github.com/scigolib/hdf5" && !isVrt(pk) {
+					e.Func = fn.String()
+					break
+				}
+			}
+		}
+	}
+	t.objs[o.ID] = o
+	t.add(e)
 }
 
 func (t *tracer) finish() *ThreadTrace {
+	// name the memory locations
+	for ti := range t.threads {
+		for ei := range t.threads[ti] {
+			e := &t.threads[ti][ei]
+			if (e.Kind == "R" || e.Kind == "W") && t.it != nil {
+				if o := t.objs[e.Obj]; o != nil {
+					e.Name = t.it.slotName(o, e.Slot)
+				}
+			}
+		}
+	}
 	return &ThreadTrace{Threads: t.threads, Names: t.names}
 }
 
@@ -201,9 +236,16 @@ func (it *Interp) chanRecv(ch *ChanObj, commaOk bool, t types.Type) Val {
 		}
 		return z
 	}
+	if it.tracer != nil && it.tracer.cur == 0 && len(it.tracer.pending) > 0 {
+		// the main thread would block: let the goroutines started so far run, then look again
+		it.runPending()
+		return it.chanRecv(ch, commaOk, t)
+	}
 	if it.tracer != nil {
-		// would block: record and stop this thread
 		it.chanEvent("recvblock", ch)
+		if it.tracer.cur == 0 {
+			it.violationNow("no-deadlock", "main thread blocks forever on a channel receive in "+it.where())
+		}
 	}
 	it.endPath("thread blocked", false)
 	return nil
@@ -227,16 +269,43 @@ func (it *Interp) selectOp(fr *frameState, x *ssa.Select) Val {
 		it.unsupported("select outside trace mode")
 	}
 	n := len(x.States)
-	alts := n
+	// which cases can fire now
+	var enabled []int
+	for i, st := range x.States {
+		ch, _ := it.get(fr, st.Chan).(*ChanObj)
+		if ch == nil {
+			continue
+		}
+		if st.Dir == types.RecvOnly {
+			if ch.Closed || len(ch.Buf) > 0 || (ch.Ticker && ch.Budget > 0) {
+				enabled = append(enabled, i)
+			}
+		} else if !ch.Closed && (len(ch.Buf) < ch.Cap) {
+			enabled = append(enabled, i)
+		}
+	}
 	if !x.Blocking {
-		alts = n + 1
+		enabled = append(enabled, n) // default
 	}
-	conds := make([]*sym.Term, alts)
-	v := it.ctx.Fresh("select", sym.BVSort(8))
-	for i := range conds {
-		conds[i] = it.ctx.Eq(v, it.ctx.BV(8, uint64(i)))
+	if len(enabled) == 0 {
+		if it.tracer.cur == 0 && len(it.tracer.pending) > 0 {
+			it.runPending()
+			return it.selectOp(fr, x)
+		}
+		if it.tracer.cur == 0 {
+			it.violationNow("no-deadlock", "main thread blocks forever in select in "+it.where())
+		}
+		it.endPath("thread blocked", false)
 	}
-	k := it.choose(conds, false)
+	k := enabled[0]
+	if len(enabled) > 1 {
+		conds := make([]*sym.Term, len(enabled))
+		v := it.ctx.Fresh("select", sym.BVSort(8))
+		for i := range conds {
+			conds[i] = it.ctx.Eq(v, it.ctx.BV(8, uint64(i)))
+		}
+		k = enabled[it.choose(conds, false)]
+	}
 	res := make(Tuple, 2+countRecv(x))
 	idx := k
 	if k == n {
@@ -247,21 +316,22 @@ func (it *Interp) selectOp(fr *frameState, x *ssa.Select) Val {
 	ri := 2
 	for i, st := range x.States {
 		if st.Dir == types.RecvOnly {
-			ch := it.get(fr, st.Chan).(*ChanObj)
+			ch, _ := it.get(fr, st.Chan).(*ChanObj)
 			et := st.Chan.Type().Underlying().(*types.Chan).Elem()
 			res[ri] = it.zeroVal(et)
-			if i == k {
-				ev := "recv-select"
-				if ch != nil && ch.Closed {
-					ev = "recvclosed"
-				}
-				if ch != nil {
-					it.chanEvent(ev, ch)
-					if len(ch.Buf) > 0 {
-						res[ri] = ch.Buf[0]
-						ch.Buf = ch.Buf[1:]
-						res[1] = Bool{C: true}
-					}
+			if i == k && ch != nil {
+				switch {
+				case len(ch.Buf) > 0:
+					it.chanEvent("recv", ch)
+					res[ri] = ch.Buf[0]
+					ch.Buf = ch.Buf[1:]
+					res[1] = Bool{C: true}
+				case ch.Closed:
+					it.chanEvent("recvclosed", ch)
+				case ch.Ticker:
+					ch.Budget--
+					it.chanEvent("tick", ch)
+					res[1] = Bool{C: true}
 				}
 			}
 			ri++
